@@ -60,13 +60,16 @@ PLANS = {
         ("seamsim", "C10", {"quick": dict(count=4000), "thorough": dict(count=150000)}),
         ("parsim", "C10P", {"quick": dict(count=600, scheds=6), "thorough": dict(count=10000, scheds=12)}),
     ],
-    "C11": [("seamsim", "C11", {"quick": dict(count=40000), "thorough": dict(count=2000000)})],
-    "C12": [("seamsim", "C12", {"quick": dict(count=48), "thorough": dict(count=400)})],
+    "C11": [("seamsim", "C11", {"quick": dict(count=40000), "thorough": dict(count=2000000)}),
+            ("seamsim-checked", "C11", {"thorough": dict(count=300000)})],
+    "C12": [("seamsim", "C12", {"quick": dict(count=48), "thorough": dict(count=400)}),
+            ("seamsim-checked", "C12", {"thorough": dict(count=100)})],
     "C14": [
         ("seamsim", "C14", {"quick": dict(count=20000), "thorough": dict(count=600000)}),
         ("parsim", "C14P", {"quick": dict(count=800, scheds=6), "thorough": dict(count=20000, scheds=12)}),
     ],
-    "C16": [("seamsim", "C16", {"quick": dict(count=30), "thorough": dict(count=120)})],
+    "C16": [("seamsim", "C16", {"quick": dict(count=30), "thorough": dict(count=120)}),
+            ("seamsim-checked", "C16", {"thorough": dict(count=60)})],
     "C17": [
         ("seamsim", "C17", {"quick": dict(count=20000), "thorough": dict(count=400000)}),
         ("parsim", "C17P", {"quick": dict(count=1500, scheds=8), "thorough": dict(count=30000, scheds=16)}),
@@ -579,8 +582,9 @@ def write_evidence(prop, tier, seed, parts, wall, violations, known_matched, bui
 # ----------------------------------------------------------------------------
 def engines_for(prop, tier):
     es = set()
-    for engine, _, _ in PLANS[prop]:
-        es.add(engine)
+    for engine, _, tiers in PLANS[prop]:
+        if tier in tiers:
+            es.add(engine)
     return es
 
 
@@ -592,7 +596,12 @@ def cmd_check(prop, tier, seed):
     known = load_known()
     parts = {}
     all_cands = []
+    for f in os.listdir(REPLAYS) if os.path.isdir(REPLAYS) else []:
+        if f.startswith(prop + "-") and f.endswith(".cand.json"):
+            os.remove(os.path.join(REPLAYS, f))
     for engine, sub, tiers in PLANS[prop]:
+        if tier not in tiers:
+            continue
         params = tiers[tier]
         sums, cands = run_part(prop, engine, sub, tier, seed, params)
         parts[(engine, sub)] = merge(sums)
@@ -619,6 +628,9 @@ def cmd_check(prop, tier, seed):
             continue
         final = finalise_candidate(prop, cand, len(violations))
         violations.append((final, cand))
+    for cand in all_cands:
+        if cand["path"].endswith(".cand.json") and os.path.exists(cand["path"]):
+            os.remove(cand["path"])
     wall = time.time() - t0
     write_evidence(prop, tier, seed, parts, wall, len(violations), known_matched, build_s,
                    [{k: c["file"].get(k) for k in ("workload", "history", "fault", "case", "observed") if k in c["file"]} for c in all_cands[:3]])
